@@ -145,6 +145,16 @@ def run_case(case):
                     viol.append(V(f"empty-stage-simple-line:{kill}", got=text[:200]))
             return Result(viol, labels + ["forced-empty"], True)
         labels.append("kill-not-applicable")
+    if exc is not None and STAGE_MSG["minor"] in str(exc).lower() and rec.get("minor_objects"):
+        # recorded finding D9 (see C14) seen from the pipeline: estimate_minor filters the evidence ONCE, with the copy numbers of the
+        # LAST candidate's structure, for all candidates; a candidate whose core variant lies where that structure has no copy loses
+        # its evidence and has no feasible refinement.  Attributed only if some candidate refined ALONE (own filter) is feasible
+        mo = rec["minor_objects"]
+        structs = {tuple(sorted(m.cn_solution.solution.items())) for m in mo["majors"]}
+        alone_ok = any(mo["estimate_minor"](mo["gene"], mo["coverage"], [m], "cbc") for m in mo["majors"])
+        if alone_ok and len(structs) > 1:
+            return Result([V("KF-D9:no-refinement-next-to-other-candidates-although-one-exists-alone", candidates=len(mo["majors"]),
+                             structures=len(structs))], labels + ["kf-d9"], True)
     if exc is not None:
         return Result([V("unexpected-exception", message=str(exc)[:300])], labels, True)
 
